@@ -46,16 +46,16 @@ type sinfo struct {
 }
 
 func encoderLevel() {
-	nSimple := e.Pick(200, 4000)
+	nSimple := e.Pick(150, 4000)
 	for i := 0; i < nSimple; i++ {
 		simpleHistory(i)
 	}
-	nCID := e.Pick(200, 4000)
+	nCID := e.Pick(150, 4000)
 	for i := 0; i < nCID; i++ {
 		utf8History(i)
 		identityHistory(i)
 	}
-	nCMap := e.Pick(60, 600)
+	nCMap := e.Pick(36, 500)
 	for i := 0; i < nCMap; i++ {
 		fromCMapHistory(i)
 	}
@@ -418,7 +418,6 @@ func identityHistory(i int) {
 	e.Count(true, fmt.Sprintf("identity|%d|%d|%d", i, nOps, len(order)), "history:cidenc-identity:"+sizeClass(len(order), false))
 }
 
-
 // simpleText: the text a reader derives (dict.SimpleTextMap, the function every
 // extracted simple font uses) from what the encoder hands to the font
 // dictionary, for both dictionary shapes: /Encoding + ToUnicode(), and the
@@ -564,19 +563,10 @@ func fromCMapHistory(i int) {
 	for k := 0; k < 8+e.Rand.IntN(30); k++ {
 		pool = append(pool, cids[e.Rand.IntN(len(cids))])
 	}
-	// the CIDs whose code a child CMap re-maps are the interesting ones: look for some
-	for k := 0; k < 400 && len(pool) < 48; k++ {
-		c := cids[e.Rand.IntN(len(cids))]
-		probe, _ := cidenc.NewFromCMap(cm, 0)
-		if code, err := probe.Encode(c, "", 0); err == nil {
-			for fc := range probe.Codes(probe.Codec().AppendCode(nil, code)) {
-				if fc.CID != c {
-					pool = append(pool, c)
-				}
-			}
-		}
-		if cm.Parent == nil {
-			break
+	// the CIDs whose code a child CMap re-maps are the interesting ones
+	if rc := recodedCIDs(name, cm, cids); len(rc) > 0 {
+		for k := 0; k < 8; k++ {
+			pool = append(pool, rc[e.Rand.IntN(len(rc))])
 		}
 	}
 	pool = append(pool, 0, cid.CID(70000+e.Rand.IntN(100)))
@@ -602,9 +592,15 @@ func fromCMapHistory(i int) {
 		if err != nil {
 			continue
 		}
-		if enc.recoded {
+		b := enc.Codec().AppendCode(nil, code)
+		// the writer-side decoding must be the CMap's: the code -> CID table is the CMap read backwards
+		for fc := range enc.Codes(pdf.String(b)) {
+			if fc.CID != cm.LookupCID(b) {
+				fail("cidenc-fromcmap:codes-disagree-with-cmap", fmt.Sprintf("CMap %s: code %x decodes as CID %d, the CMap maps it to CID %d", name, b, fc.CID, cm.LookupCID(b)), caseInfo)
+			}
+		}
+		if cm.LookupCID(b) != c {
 			recodedSeen = true
-			b := enc.Codec().AppendCode(nil, code)
 			failRecode(fmt.Sprintf("CMap %s: Encode(CID %d) returns code %x, which the CMap maps to CID %d", name, c, b, cm.LookupCID(b)), caseInfo)
 			continue
 		}
@@ -614,7 +610,8 @@ func fromCMapHistory(i int) {
 		}
 	}
 	// every CID shown (with a code that is its own) reads back with its first width and text
-	if len(order) > 0 && !recodedSeen {
+	_ = recodedSeen
+	if len(order) > 0 {
 		var str pdf.String
 		var toks, mp []string
 		var want []cid.CID
@@ -653,3 +650,28 @@ func fromCMapHistory(i int) {
 }
 
 func sortCIDs(c []cid.CID) { sort.Slice(c, func(i, j int) bool { return c[i] < c[j] }) }
+
+var recodedCache = map[string][]cid.CID{}
+
+// recodedCIDs: the CIDs for which NewFromCMap returns a code the CMap maps elsewhere
+// (found with a separate encoder, once per CMap).
+func recodedCIDs(name string, cm *cmap.File, cids []cid.CID) []cid.CID {
+	if rc, ok := recodedCache[name]; ok {
+		return rc
+	}
+	var rc []cid.CID
+	if cm.Parent != nil {
+		probe, _ := cidenc.NewFromCMap(cm, 0)
+		for _, c := range cids {
+			if code, err := probe.Encode(c, "", 0); err == nil {
+				for fc := range probe.Codes(probe.Codec().AppendCode(nil, code)) {
+					if fc.CID != c {
+						rc = append(rc, c)
+					}
+				}
+			}
+		}
+	}
+	recodedCache[name] = rc
+	return rc
+}
